@@ -5,7 +5,7 @@ package forwarder
 
 // C13: every request the proxy reads is reported complete exactly once, with the status the client was sent.
 //
-//vf:assume C13-trace: two exchanges on one connection through the real connection loop, each one of: forwarded GET, GET refused by authentication (407), GET whose round trip fails, HEAD, CONNECT tunnel that runs to completion, CONNECT whose dial fails; optionally the client socket fails for writes after k bytes; the completion hooks (ProxyTrace) are ghost counters
+//vf:assume C13-trace: two (quick) / three (thorough) exchanges on one connection through the real connection loop, each one of: forwarded GET, GET refused by authentication (407), GET whose round trip fails, HEAD, CONNECT tunnel that runs to completion, CONNECT whose dial fails; optionally the client socket fails for writes after k bytes; the completion hooks (ProxyTrace) are ghost counters
 //vf:assume C13-trace: one schedule per tunnel (directions one after the other); concurrent closes are covered by the conntrack harness only sequentially (sync.Once is trusted)
 
 import (
@@ -97,6 +97,12 @@ func vfH_C13_trace() {
 		e2 = vfExchangeKind(1)
 		wire += e2.text
 	}
+	var e3 vfExchange
+	three := vfrt.Thorough() && two && !e2.lastOne
+	if three { // thorough tier: a third exchange on the connection
+		e3 = vfExchangeKind(2)
+		wire += e3.text
+	}
 	conn := martian.NewVfConn([]byte(wire))
 	writeFails := vfrt.Choice("client-write-fails", 3)
 	if writeFails > 0 {
@@ -113,7 +119,7 @@ func vfH_C13_trace() {
 	if writeFails > 0 {
 		return
 	}
-	if e1.tunnel || (two && e2.tunnel) {
+	if e1.tunnel || (two && e2.tunnel) || (three && e3.tunnel) {
 		vfrt.Reach("trace-tunnel")
 		vfrt.Assert(bytes.Equal(target.Out.Bytes(), []byte("hello")), "trace/tunnel-ran")
 	}
@@ -124,6 +130,9 @@ func vfH_C13_trace() {
 		method := e1.method
 		if n == 1 {
 			method = e2.method
+		}
+		if n == 2 {
+			method = e3.method
 		}
 		res, err := http.ReadResponse(br, &http.Request{Method: method})
 		if err != nil {
